@@ -214,6 +214,9 @@ def run(ctx):
         csem = semcheck.spec_batch(drv, corpus)
         from lib import pmap as _pmap
         cruns = _pmap(_default_only, [spine.to_src(P) for P in corpus])
+        # a pinned program that ran out of time (loaded machine) is run again, alone, with a long limit
+        cruns = [real_default(spine.to_src(P), timeout=180) if (r[0] == "error" and r[1][1] == "Timeout") else r
+                 for P, r in zip(corpus, cruns)]
         for P, sem, r in zip(corpus, csem, cruns):
             ctx.case("corpus:" + spine.to_src(P), nontrivial=True)
             bad = semcheck.compare(P, sem, r, "default")
